@@ -391,6 +391,15 @@ pub fn run(tier: Tier) -> i32 {
             BYZ,
             ClusterAlphabet { byz_votes: byz_votes(&[1]), forge: forge_for(&[1]), blocks: slot1_blocks.clone(), invalid: vec![1], windows: vec![0] },
         ),
+        // total stake 12 (not a multiple of 5): 60 % of it is 7.2, so eight units are needed - two
+        // quorums of seven would overlap in the Byzantine validator's two units only
+        ClusterSys::new(
+            "R3-two-real-nodes-total-stake-12",
+            Arc::new(make_epoch(&[2, 5, 5])),
+            vec![NODE, V2],
+            BYZ,
+            ClusterAlphabet { byz_votes: byz_votes(&[1]), forge: vec![], blocks: slot1_blocks.clone(), invalid: vec![], windows: vec![0] },
+        ),
         ClusterSys::new(
             "K4-three-real-nodes-slot1",
             k4.clone(),
@@ -451,6 +460,10 @@ pub fn run(tier: Tier) -> i32 {
             let o = sys.step(&mut w, a, true);
             println!("step {} -> violations {:?}", sys.describe(a), o.violations.iter().map(|v| &v.0).collect::<Vec<_>>());
         }
+        if std::env::var("C01_DEBUG_COMPLETE").is_ok() {
+            let rounds = sys.fair_completion(&mut w, false);
+            println!("fair completion: {rounds} rounds; finalization logs: {:?}", w.fins.iter().map(|f| f.iter().map(|x| x.finalized.iter().chain(x.implicitly_finalized.iter()).map(|b| b.0.inner()).collect::<Vec<_>>()).collect::<Vec<_>>()).collect::<Vec<_>>());
+        }
         for (n, e) in w.emitted.iter().enumerate() {
             println!("node v{} emitted:", sys.nodes[n]);
             for m in e {
@@ -501,7 +514,7 @@ pub fn run(tier: Tier) -> i32 {
         // (two orders) and the completed world is judged for agreement
         // per-transition judgement to the full cluster depth first (cheap) ...
         // the third-window system replays a long start-state prefix for every expansion: one level less
-        let plain_depth = if inner.name.contains("third-window") { cdepth - 1 } else { cdepth };
+        let plain_depth = if inner.name.contains("third-window") { cdepth - 1 } else if inner.name.starts_with("R3-") { cdepth + 2 } else { cdepth };
         let limits = BfsLimits::new(plain_depth, tier.pick(400_000, 30_000_000), tier.pick(10, 150));
         let plain = bfs(&inner, &inner.name, &limits, &report);
         println!("  {}: states={} transitions={} depth_completed={} capped={:?} (per-transition oracle only)", inner.name, plain.states, plain.transitions, plain.depth_completed, plain.capped);
@@ -512,7 +525,9 @@ pub fn run(tier: Tier) -> i32 {
         // ... then with fair completion of every state, one level shallower
         let mut live = crate::cluster::LiveSys::new(inner);
         live.safety = true;
-        let limits = BfsLimits::new(cdepth - 1, tier.pick(400_000, 30_000_000), tier.pick(30, 150));
+        // the two-node system is small enough for fair completion at the full depth
+        let live_depth = if live.inner.name.starts_with("R3-") { cdepth + 1 } else { cdepth - 1 };
+        let limits = BfsLimits::new(live_depth, tier.pick(400_000, 30_000_000), tier.pick(30, 150));
         let st = bfs(&live, &live.inner.name, &limits, &report);
         let sys = &live.inner;
         println!(
